@@ -22,12 +22,16 @@ META = dict(
         "allocation failure (NULL from PyList_New / Py_BuildValue / decode) is modelled as possible where the code checks for it",
     ],
     stubs=["PyArg_ParseTuple, Py_BuildValue, PyList_New/Append, PyUnicode_DecodeFSDefault[AndSize], PyErr_*, strcmp, strnlen, strncpy, getutent/setutent/endutent, socket/ioctl/close, syscall, getpriority/setpriority, sysinfo, __errno_location"],
-    bounds=dict(quick=dict(utmp="one login record, all 384 bytes symbolic", ioprio="class and level any 32-bit int (round-trip claimed for class 0..3, level 0..7)", nic_name="lengths 0, 1, 15, 16, 40"),
-                thorough=dict(utmp="one record, all bytes symbolic; two records", ioprio="as quick", nic_name="lengths 0..20, 64, 255")),
+    bounds=dict(quick=dict(utmp="one login record, all 384 bytes symbolic", ioprio="class and level any 32-bit int (round-trip claimed for class 0..3, level 0..7)", nic_name="lengths 0, 1, 15, 16, 40",
+                           mac="hardware address length 0..24 (glibc's sockaddr_ll_max), all bytes symbolic; AF_INET/AF_INET6/other families/NULL", ifaddrs="getifaddrs() list of 0..2 entries, flags and families symbolic, 9 outcome plans of psutil_convert_ipaddr",
+                           affinity_set="sequences of 0..2 integers of any 64-bit value", affinity_get="0/1/30 EINVAL answers before success, 1..3 symbolic mask bits", net_if_py="2 interfaces / 2 records, one symbolic"),
+                thorough=dict(utmp="one record, all bytes symbolic; two records", ioprio="as quick", nic_name="lengths 0..20, 64, 255", mac="as quick", ifaddrs="0..3 entries, 14 outcome plans", affinity_set="0..3 integers",
+                              affinity_get="up to 6 symbolic mask bits", net_if_py="1..3 interfaces / records")),
     outside=["everything inside CPython and libc (getmntent, getifaddrs, getnameinfo)", "the sanitizer-run formulation of the statement (a different technique)", "the parsing glibc's getmntent() does (escapes, field splitting): only the buffer-size contract of getmntent_r and the hand-over of the four strings are checked",              "wrong argument *types* (rejected inside PyArg_ParseTuple, which is trusted)"],
     extra=dict(c_functions_encoded=["arch/linux/users.c:psutil_users", "arch/linux/proc.c:psutil_proc_ioprio_get", "arch/linux/proc.c:psutil_proc_ioprio_set", "_psutil_posix.c:psutil_net_if_mtu",
                                     "_psutil_posix.c:psutil_net_if_flags", "_psutil_posix.c:psutil_posix_getpriority", "_psutil_posix.c:psutil_posix_setpriority", "_psutil_common.c:psutil_check_pid_range",
-                                    "arch/linux/mem.c:psutil_linux_sysinfo", "arch/linux/disk.c:psutil_disk_partitions"],
+                                    "arch/linux/mem.c:psutil_linux_sysinfo", "arch/linux/disk.c:psutil_disk_partitions", "_psutil_posix.c:psutil_convert_ipaddr", "_psutil_posix.c:psutil_net_if_addrs",
+                                    "arch/linux/proc.c:psutil_proc_cpu_affinity_get", "arch/linux/proc.c:psutil_proc_cpu_affinity_set"],
                ir="clang -S -emit-llvm -O0 -Xclang -disable-O0-optnone with the Linux macros of setup.py, regenerated from /repo on every run"),
     labels=["memory-in-bounds", "cstring-within-record", "string-within-field", "users-fields", "ioprio-packing", "ioprio-roundtrip", "strncpy-in-bounds", "partitions-filter", "users-tuple", "net_if_stats", "net_if_addrs", "address-text", "ifaddrs-tuples", "no-uninitialised-read"],
 )
@@ -68,14 +72,22 @@ def model_assignment(m, prefix, n):
     return out
 
 
-def report(ctx, I, labels_reached, assign_fn):
+def report(ctx, I, labels_reached, assign_fn, real=None):
+    """real: callable returning a sentence about what the COMPILED extension does on the same input; evaluated only in the concrete
+    replay of a counterexample (never on the unchanged tree, where nothing fails)"""
     seen = set()
+    suffix = None
     for what, m, log in I.findings:
         lab = classify(what)
         if (lab, what) in seen:
             continue
         seen.add((lab, what))
-        ctx.external(lab, False, assign_fn(m), detail=what)
+        if real is not None and not ctx.symbolic and suffix is None:
+            try:
+                suffix = " || compiled extension: " + real()
+            except Exception as e:  # noqa: BLE001
+                suffix = f" || compiled extension: replay not possible ({type(e).__name__}: {e})"
+        ctx.external(lab, False, assign_fn(m), detail=what + (suffix or ""))
     for lab in labels_reached:
         if not any(classify(w) == lab for w, _, _ in I.findings):
             ctx.external(lab, True)
@@ -215,7 +227,37 @@ def users_c(ctx, nrec):
         for k in state["rec_objs"]:
             if k in st.objs:
                 pass
-    report(ctx, I, ["memory-in-bounds", "cstring-within-record", "string-within-field", "string-cut-at-first-nul"], assign)
+    def real():
+        import os as _os
+        import struct as _struct
+
+        from psv import realbuild
+
+        d = realbuild.built()
+        path = _os.path.join(d, "utmp.replay")
+        with open(path, "wb") as f:
+            for r in range(nrec):
+                f.write(bytes(concrete[r]))
+        rc, out, err = realbuild.run(f"import ctypes, json, psutil\nctypes.CDLL(None).utmpname({path.encode()!r})\nprint(json.dumps([[u.name, u.terminal, u.host, u.started, u.pid] for u in psutil.users()]))")
+        if rc != 0:
+            return f"users() died with exit status {rc}: {err.strip()[-200:]}"
+        import json as _json
+
+        got = _json.loads(out.strip().splitlines()[-1])
+        want = []
+        for r in range(nrec):
+            b = bytes(concrete[r])
+            if _struct.unpack_from("<h", b, off["ut_type"])[0] != 7:
+                continue
+            cut = lambda x: _os.fsdecode(x.split(b"\0", 1)[0])           # noqa: E731
+            host = cut(b[off["ut_host"]:off["ut_host"] + 256])
+            want.append([cut(b[off["ut_user"]:off["ut_user"] + 32]), cut(b[off["ut_line"]:off["ut_line"] + 32]) or None, "localhost" if host in (":0", ":0.0") else host,
+                         float(_struct.unpack_from("<i", b, off["ut_tv"])[0]), _struct.unpack_from("<i", b, off["ut_pid"])[0]])
+        if got == want:
+            return "users() returns the record's fields correctly on this input (the fault is not observable in the result: C-level undefined behaviour only)"
+        return f"REPRODUCED: users() returns {got!r}, the record holds {want!r}"
+
+    report(ctx, I, ["memory-in-bounds", "cstring-within-record", "string-within-field", "string-cut-at-first-nul"], assign, real=real)
     ctx.external("users-fields", (fields_ok and bool(res)) or I.path_bound_hit, detail=why)
 
 
@@ -896,7 +938,19 @@ def ifaddrs_c(ctx, fail, nodes, conv):
     ctx.external("ifaddrs-tuples", ok and not fid, assign(fid[0][1]) if fid else assign(I.sat(bad_st)[1]) if bad_st is not None else {}, detail=(fid[0][0] if fid else why))
     I.findings = [f for f in I.findings if f not in fid]
     uninit = [f for f in I.findings if "uninitialised" in f[0]]
-    ctx.external("no-uninitialised-read", not uninit, {}, detail=uninit[0][0] if uninit else "")
+    det = uninit[0][0] if uninit else ""
+    if uninit and not ctx.symbolic:
+        try:
+            from psv import realbuild
+
+            lib = realbuild.shim('#include <errno.h>\n#include <stdio.h>\n#include <unistd.h>\nstruct ifaddrs;\n'
+                                 'int getifaddrs(struct ifaddrs **p) { errno = ENOMEM; return -1; }   /* fails as its contract allows: says nothing about *p */\n'
+                                 'void freeifaddrs(struct ifaddrs *p) { fprintf(stderr, "freeifaddrs(%p) after a failed getifaddrs()\\n", (void *)p); fflush(stderr); _exit(97); }\n')
+            rc, out, err = realbuild.run("import psutil\ntry:\n    psutil.net_if_addrs()\nexcept OSError as e:\n    print('OSError', e)", preload=lib)
+            det += " || compiled extension under a getifaddrs() that returns -1 without touching *ifap: " + ("REPRODUCED: " + err.strip()[-120:] if rc == 97 else f"exit status {rc}, {out.strip()[-80:]} (the stack slot happened to hold NULL)")
+        except Exception as e:  # noqa: BLE001
+            det += f" || compiled extension: replay not possible ({type(e).__name__}: {e})"
+    ctx.external("no-uninitialised-read", not uninit, {}, detail=det)
     I.findings = [f for f in I.findings if f not in uninit]
     report(ctx, I, ["memory-in-bounds"], assign)
 
